@@ -303,12 +303,12 @@ def units():
     targets = lambda *n: [NS + x for x in n]
     lower = ["G1::multiply = (k mod r)*P (C06)", "Projective::add/copy = group law (C05)", "G2::multiply_frobenius = (k mod r)*Q (C06)", "PowersOfX::random: y uniform in [0,r), digits of y (C07)"]
     for (which, fn) in (("keygen", gen_keygen), ("nondelegable_keygen", gen_keygen)):
-        us.append(ScenUnit("wkdibe::%s establishes WF (l<=3)" % which, ["C11", "C12"], fn(which, 3), kind="bounded", bound="slot count l <= 3 (all list shapes, both flags; values symbolic)",
+        us.append(ScenUnit("wkdibe::%s establishes WF (l<=3)" % which, ["C11", "C12", "C17"], fn(which, 3), kind="bounded", bound="slot count l <= 3 (all list shapes, both flags; values symbolic)",
                            targets=targets(which), contracts_used=lower))
         us.append(ScenUnit("wkdibe::%s establishes WF (l<=5)" % which, ["C11", "C12"], fn(which, 5), tier="thorough", kind="bounded", bound="slot count l <= 5",
                            targets=targets(which), contracts_used=lower))
     for which in ("qualifykey", "nondelegable_qualifykey"):
-        us.append(ScenUnit("wkdibe::%s preserves WF (l<=3)" % which, ["C11", "C12"], gen_qualify(which, 3), kind="bounded", bound="slot count l <= 3 (all parent patterns x permitted lists x flags; values symbolic)",
+        us.append(ScenUnit("wkdibe::%s preserves WF (l<=3)" % which, ["C11", "C12", "C17"], gen_qualify(which, 3), kind="bounded", bound="slot count l <= 3 (all parent patterns x permitted lists x flags; values symbolic)",
                            targets=targets(which), contracts_used=lower))
         us.append(ScenUnit("wkdibe::%s preserves WF, ids repeated as id+r (l<=2)" % which, ["C11"], gen_qualify(which, 2, eqmod=True), kind="bounded", bound="slot count l <= 2",
                            targets=targets(which), contracts_used=lower))
